@@ -8,6 +8,8 @@ CONSTANTS
   MaxEnv = 1
   ForeignAt = "ref"
   RenderFails = FALSE
+  CacheMisses = FALSE
+  VerBumps = FALSE
   FailKinds = {}
 VIEW view
 ACTION_CONSTRAINT Emit
